@@ -10,7 +10,9 @@ RULE = ('str/repr for all contents and lengths (every residue mod 4 and mod 3, 0
         'truncation mark and true length; pp() for all pairs of bin/hex/oct/bytes formats x group sizes x widths 0..200 x separators x show_offset x lsb0/no_color: digits in order, groups never split, '
         'line widths, no escape sequences under no_color; pp with an explicit group size from one digit to far beyond the whole data (every length 0..2 groups and a bit; a usable group size must print: digits + trailing bits, '
         'trailing bits = length mod group size); str/repr after every move of a history on ONE object (stream reads / peeks / seeks / bytealign / searches, refused calls, documented mutators, both bit numberings) and of every '
-        'bitstring object such a call returns, against a (bits, pos) reference machine; Array.__repr__ re-evaluated for unscaled dtypes. non-trivial = length not a multiple of 4 or a pp with two formats; distinct by arguments')
+        'bitstring object such a call returns, against a (bits, pos) reference machine; the same for objects of USER SUBCLASSES of the four classes (real class statements at module level, in functions, nested functions, class bodies, methods, type() calls, decorated; '
+        'plain / methods / __slots__ / __init__ / mix-in / metaclass bodies; subclasses of subclasses; nine construction routes and files; str/repr taken via str()/repr(), the dunders, f-strings, % and containers), repr evaluated in the scope '
+        'Python gives right after the class statement, class compared by identity, for the object and for every object its methods return; Array.__repr__ re-evaluated for unscaled dtypes (also for user subclasses of Array). non-trivial = length not a multiple of 4 or a pp with two formats; distinct by arguments')
 ASSUMPTIONS = ['MAX_CHARS is read from the working tree and compared with the model constant', 'pp layout theorems are not proved (partial): the pp oracle carries that part']
 
 def gen_cases(rng, tier):
@@ -73,6 +75,8 @@ def gen_cases(rng, tier):
     yield from gen_pp_short(rng, tier)
     # printable forms of streams whose position was reached by stream operations (reads, seeks, bytealign, searches, refused calls) on one object
     yield from gen_stream_pos(rng, tier)
+    # objects of user subclasses of the four classes and of Array (defined at module level, in functions, in classes, ...): str / repr as for any other object
+    yield from gen_subclasses(rng, tier)
 
 # ---------------------------------------------------------------------------------------------------------------------------------------------------
 # pp(): which calls have to print. Written from the documentation of pp(): a format is one or two of bin / oct / hex / bytes, an explicit length is the
@@ -362,7 +366,147 @@ def gen_stream_pos(rng, tier):
         yield {'op': 'stream_pos', 'cls': cls, 'bits': bits, 'lsb0': lsb0, 'pos0': rng.choice([0, 0, n // 2, n]) if cls in STREAMS else None,
                'moves': [rand_move(rng, cls, bits, lsb0) for _ in range(rng.randrange(3, 20))]}
 
-def kind(c): return c['op']
+# ---------------------------------------------------------------------------------------------------------------------------------------------------
+# USER SUBCLASSES of the four classes (and of Array), written the way applications write them: at module level, inside a function (a factory, a test
+# function), inside a nested function, in the body of another class, in a class in a class, in a class in a function, inside a method, made with type(),
+# decorated; empty, with methods / properties / class attributes, with __slots__, with an __init__ that calls super(), with a mix-in before or after the
+# base, with a metaclass, as a subclass of another user subclass. The class statement is REAL Python source, executed in a namespace of its own (a "user
+# module" with a name of its own); the scope in which repr() is evaluated is the one Python itself gives at the point just after the class statement
+# (globals + locals there), i.e. exactly where the class is visible under its own name. Property: "evaluating repr(s) rebuilds an equal object of the same
+# class (with the same pos for streams)", "Bits(str(s)) == s" - for every object, whatever class it has.
+SUB_BODIES = {
+    'plain': ['    pass'],
+    'doc': ['    """A user subclass."""'],
+    'methods': ['    KIND = 7', '    def header(self): return self[:8]', '    @property', '    def size(self): return len(self)', '    @classmethod', '    def make(cls, b): return cls(bin=b)',
+                '    @staticmethod', '    def helper(): return 1'],
+    'slots0': ['    __slots__ = ()'],
+    'slots': ["    __slots__ = ('tag',)"],
+    'init': ['    def __init__(self, *args, **kwargs):', '        super().__init__(*args, **kwargs)', '        self.tag = 5'],
+    'mixin_first': ['    pass'], 'mixin_last': ['    KIND = 3'], 'abc': ['    pass'],
+}
+SUB_WHERES = ['module', 'function', 'nested_function', 'class', 'class_in_class', 'class_in_function', 'method', 'classmethod', 'type_call', 'type_call_function', 'decorated', 'decorated_function', 'conditional']
+SUB_NAMES = ['Packet', 'Frame', 'Reader', '_Private', 'X', 'Array', 'Stream', 'bits', 'T1', 'Packet_v2', 'Straße', 'pos', 'Outer', 'factory']
+SUB_MODNAMES = ['__main__', 'frames', 'userpkg.frames', 'tests.test_frames']
+SUB_VIAS = ['plain', 'plain', 'dunder', 'format', 'percent', 'container']
+
+def sub_source(spec):
+    name, body, where = spec['name'], spec['body'], spec['where']
+    bases = {'mixin_first': 'Mixin, {b}', 'mixin_last': '{b}, Mixin', 'abc': '{b}, metaclass=abc.ABCMeta'}
+    def cls_lines(nm, base, bd): return [f"class {nm}({bases.get(bd, '{b}').format(b=base)}):"] + SUB_BODIES[bd]
+    ind = lambda ls, k=1: ['    ' * k + l for l in ls]
+    pre = ['import abc', 'from bitstring import Bits, BitArray, ConstBitStream, BitStream', 'class Mixin:', '    __slots__ = ()', "    def hello(self): return 'hello'", 'def register(cls):', '    return cls']
+    inner, base = [], 'Base_'
+    if spec.get('depth') == 2:
+        mid = cls_lines('Mid' + name, 'Base_', spec.get('mid_body', 'plain'))
+        if spec.get('mid_where') == 'module': pre += mid
+        else: inner += mid
+        base = 'Mid' + name
+    if where.startswith('type_call'): inner.append(f"{name} = type({name!r}, ({base},), {{'KIND': 7, 'header': lambda self: self[:8]}})")
+    else: inner += (['@register'] if where.startswith('decorated') else []) + cls_lines(name, base, body)
+    grab = ['SCOPE = dict(globals()); SCOPE.update(locals())']
+    if where in ('module', 'type_call', 'decorated'): code = inner + grab
+    elif where == 'conditional': code = ['if len(Mixin.__slots__) == 0:'] + ind(inner) + grab
+    elif where in ('function', 'type_call_function', 'decorated_function'): code = ['def factory():'] + ind(inner + grab + ['return SCOPE']) + ['SCOPE = factory()']
+    elif where == 'nested_function': code = ['def outer():', '    def inner():'] + ind(inner + grab + ['return SCOPE'], 2) + ['    return inner()', 'SCOPE = outer()']
+    elif where == 'class': code = ['class Outer:'] + ind(inner + grab) + ['SCOPE = Outer.SCOPE']
+    elif where == 'class_in_class': code = ['class Outer:', '    class Middle:'] + ind(inner + grab, 2) + ['SCOPE = Outer.Middle.SCOPE']
+    elif where == 'class_in_function': code = ['def factory():', '    class Outer:'] + ind(inner + grab, 2) + ['    return Outer.SCOPE', 'SCOPE = factory()']
+    elif where == 'method': code = ['class Outer:', '    def build(self):'] + ind(inner + grab + ['return SCOPE'], 2) + ['SCOPE = Outer().build()']
+    elif where == 'classmethod': code = ['class Outer:', '    @classmethod', '    def build(cls):'] + ind(inner + grab + ['return SCOPE'], 2) + ['SCOPE = Outer.build()']
+    else: raise AssertionError(where)
+    return '\n'.join(pre + code) + '\n'
+
+def make_sub(spec):
+    """-> (the user subclass, the namespace in which it is visible under its own name)"""
+    import bitstring
+    ns = {'__name__': spec.get('modname', '__main__'), 'Base_': getattr(bitstring, spec['base'])}
+    exec(compile(sub_source(spec), '<user module>', 'exec'), ns)
+    scope = ns['SCOPE']
+    return scope[spec['name']], scope
+
+def rand_sub(rng, base, where=None, body=None):
+    where = where or rng.choice(SUB_WHERES)
+    spec = {'base': base, 'where': where, 'name': rng.choice(SUB_NAMES), 'body': body or rng.choice(list(SUB_BODIES)), 'modname': rng.choice(SUB_MODNAMES), 'depth': rng.choice([1, 1, 1, 2])}
+    if where in ('class', 'class_in_class', 'class_in_function', 'method', 'classmethod') and spec['name'] == 'Outer': spec['name'] = 'Inner'
+    if where in ('function', 'type_call_function', 'decorated_function', 'class_in_function') and spec['name'] == 'factory': spec['name'] = 'Made'
+    if spec['depth'] == 2: spec.update({'mid_where': rng.choice(['module', 'same']), 'mid_body': rng.choice(['plain', 'methods', 'slots0', 'init'])})
+    return spec
+
+SUB_ROUTES = ['bin', 'auto', 'bytes', 'slice', 'fromstring', 'join', 'from_lib', 'add', 'kwpos']
+
+def build_sub(N, bits, route, pos):
+    """an object of the user class N holding bits, through one of the construction routes; streams are put at pos"""
+    from bitstring import Bits, BitArray, ConstBitStream
+    n = len(bits)
+    if route == 'kwpos' and issubclass(N, ConstBitStream): return N(bin=bits, pos=pos) if n else N(pos=pos)
+    if route in ('bin', 'kwpos'): o = N(bin=bits)
+    elif route == 'auto': o = N('0b' + bits) if n else N()
+    elif route == 'bytes':
+        padded = '000' + bits + '0' * ((-(3 + n)) % 8)
+        o = N(bytes=int(padded, 2).to_bytes(len(padded) // 8, 'big'), offset=3, length=n)
+    elif route == 'slice': o = N(bin='101' + bits + '0110')[3:3 + n]
+    elif route == 'fromstring': o = N.fromstring('0b' + bits if n else '')
+    elif route == 'join': o = N().join([Bits(bin=bits[:n // 2]), BitArray(bin=bits[n // 2:])])
+    elif route == 'from_lib': o = N(BitArray(bin=bits))
+    elif route == 'add': o = N() + Bits(bin=bits)
+    else: raise AssertionError(route)
+    if type(o) is not N: raise AssertionError(f'route {route} gave a {type(o).__name__}')
+    if isinstance(o, ConstBitStream): o.pos = pos
+    return o
+
+def printable_in(x, scope, via='plain'):
+    """what str() and repr() say about x (taken through one of the usual ways of asking for them), repr evaluated in scope. The class is compared by IDENTITY: the
+    first item of 'eval' is the name of type(x) only when the evaluated object has exactly the class of x."""
+    from bitstring import Bits, ConstBitStream
+    short = lambda t, a, b: t if len(t) <= a + b + 1 else t[:a] + '~' + t[-b:]
+    take_str = {'plain': str, 'dunder': lambda o: o.__str__(), 'format': lambda o: f'{o}', 'percent': lambda o: '%s' % (o,), 'container': lambda o: format(o, '')}[via]
+    take_repr = {'plain': repr, 'dunder': lambda o: o.__repr__(), 'format': lambda o: f'{o!r}', 'percent': lambda o: '%r' % (o,), 'container': lambda o: repr([o])[1:-1]}[via]
+    out = {'cls': type(x).__name__, 'qual': type(x).__qualname__}
+    st = rp = None
+    try: st = take_str(x); out['str'] = short(st, 270, 20)
+    except Exception as e: out['str_exc'] = f'{type(e).__name__}: {str(e)[:100]}'
+    try: rp = take_repr(x); out['repr'] = short(rp, 300, 70)
+    except Exception as e: out['repr_exc'] = f'{type(e).__name__}: {str(e)[:100]}'
+    if st is not None and not st.endswith('...'):
+        try: out['reparse'] = Bits(st).bin if st else ''
+        except Exception as e: out['reparse_exc'] = f'{type(e).__name__}: {str(e)[:100]}'
+        if rp is not None:
+            try:
+                e = eval(rp.split('  #')[0], dict(scope))
+                who = type(x).__name__ if type(e) is type(x) else f'{type(e).__module__}.{type(e).__qualname__} (not the class of the object)'
+                out['eval'] = [who, e.bin, e.pos if isinstance(e, ConstBitStream) else None]
+            except Exception as e: out['eval_exc'] = f'{type(e).__name__}: {str(e)[:100]}'
+    return out
+
+def gen_subclasses(rng, tier):
+    quick = tier == 'quick'
+    lengths = list(range(0, 41)) + [47, 48, 49, 63, 64, 65, 127, 128, 129, 996, 999, 1000, 1001, 1004]
+    def one(base, where, body=None):
+        n = rng.choice(lengths) if rng.random() < 0.85 else rng.randrange(0, 300)
+        bits = rand_bits(rng, n); lsb0 = rng.random() < 0.3
+        return {'op': 'sub', 'sub': rand_sub(rng, base, where, body), 'bits': bits, 'route': rng.choice(SUB_ROUTES), 'pos0': rng.choice([0, n // 2, n, rng.randrange(0, n + 1)]) if base in STREAMS else None,
+                'lsb0': lsb0, 'via': rng.choice(SUB_VIAS), 'moves': [rand_move(rng, base, bits, lsb0) for _ in range(rng.randrange(2, 9))]}
+    # every base x every place of definition; every base x every kind of class body
+    for rep in range(1 if quick else 12):
+        for base in CLASSES:
+            for where in SUB_WHERES: yield one(base, where)
+            for body in SUB_BODIES: yield one(base, rng.choice(['function', 'method', 'class', 'module', 'nested_function']), body)
+    for _ in range(40 if quick else 2500): yield one(rng.choice(CLASSES), None)
+    # objects of user subclasses created from a file (repr names the file)
+    for _ in range(16 if quick else 300):
+        n = 8 * rng.choice([1, 2, 3, 16, 40, 125, 126])
+        base = rng.choice(CLASSES)
+        yield {'op': 'repr_file', 'cls': base, 'sub': rand_sub(rng, base), 'bits': rand_bits(rng, n, 'rand'), 'how': rng.choice(['filename', 'handle', 'handle_raw', 'filename_len']),
+               'edit': rng.choice([None, None, 'invert', 'append', 'del', 'set', 'reverse']), 'pos': rng.choice([0, 0, 8, n])}
+    # user subclasses of Array: the printed form evaluates (where the class is visible) to an equal Array
+    for _ in range(24 if quick else 400):
+        d = rng.choice(['uint8', 'int7', 'hex4', 'bin3', 'float16', 'float32', 'bool', 'bytes2', 'uintle16', '>h', 'oct3'])
+        spec = rand_sub(rng, 'Array', body=rng.choice(['plain', 'doc', 'methods', 'init', 'mixin_first', 'mixin_last', 'abc']))
+        if spec.get('mid_body') == 'slots0': spec['mid_body'] = 'plain'
+        if spec['name'] == 'Array': spec['name'] = 'Samples'
+        yield {'op': 'array_repr', 'sub': spec, 'dtype': d, 'n': rng.randrange(0, 6), 'trail': rand_bits(rng, rng.choice([0, 0, 1, 3])), 'seed': rng.randrange(1 << 30)}
+
+def kind(c): return c['op'] + (':subclass' if 'sub' in c else '')
 
 def run_impl(c):
     import bitstring
@@ -385,6 +529,8 @@ def run_impl(c):
     if op == 'repr_file':
         import tempfile, os
         C = getattr(bitstring, c['cls'])
+        scope = {'Bits': Bits, 'BitArray': BitArray, 'ConstBitStream': ConstBitStream, 'BitStream': BitStream}
+        if 'sub' in c: C, scope = make_sub(c['sub'])
         fd, path = tempfile.mkstemp(prefix='verif_repr_')
         try:
             with os.fdopen(fd, 'wb') as fh: fh.write(int(c['bits'], 2).to_bytes(len(c['bits']) // 8, 'big'))
@@ -404,7 +550,10 @@ def run_impl(c):
                     elif e == 'reverse': s.reverse()
                 rp = repr(s)
                 if s.__str__().endswith('...') and 'filename' not in rp: return {'repr': rp, 'skipped': True}
-                ev = eval(rp.split('  #')[0], {'Bits': Bits, 'BitArray': BitArray, 'ConstBitStream': ConstBitStream, 'BitStream': BitStream})
+                ev = eval(rp.split('  #')[0], dict(scope))
+                if 'sub' in c:      # the class is compared by identity
+                    return {'repr': rp[:120], 'cls': c['cls'] if type(ev) is C and type(s) is C else f'{type(ev).__module__}.{type(ev).__qualname__} (the object is a {type(s).__qualname__})', 'same': ev.bin == s.bin,
+                            'pos': [getattr(ev, 'pos', None), getattr(s, 'pos', None)]}
                 return {'repr': rp[:120], 'cls': type(ev).__name__, 'same': ev.bin == s.bin, 'pos': [getattr(ev, 'pos', None), getattr(s, 'pos', None)]}
             return attempt(f)
         finally:
@@ -454,15 +603,35 @@ def run_impl(c):
                 rets = [[type(x).__name__, printable(x), attempt(lambda: getattr(x, 'pos') if hasattr(type(x), 'pos') else None)[1]] for x in v if isinstance(x, Bits)]
             trace.append(['ok' if r[0] == 'ok' else r[1], printable(s), attempt(lambda: s.pos if hasattr(type(s), 'pos') else None)[1], rets])
         return ('ok', trace)
+    if op == 'sub':
+        def f():
+            N, scope = make_sub(c['sub'])
+            s = build_sub(N, c['bits'], c['route'], c['pos0'])
+            bitstring.options.lsb0 = bool(c['lsb0'])
+            getpos = lambda x: attempt(lambda: x.pos if isinstance(x, ConstBitStream) else None)[1]
+            trace = [['start', printable_in(s, scope, c['via']), getpos(s), [], type(s) is N]]
+            for mv in c['moves']:
+                r = attempt(lambda: do_move(s, mv))
+                rets = []
+                if r[0] == 'ok':
+                    v = r[1] if isinstance(r[1], (list, tuple)) else [r[1]]
+                    rets = [[type(x).__name__, printable_in(x, scope, c['via']), getpos(x)] for x in v if isinstance(x, Bits)]
+                trace.append(['ok' if r[0] == 'ok' else r[1], printable_in(s, scope, c['via']), getpos(s), rets, type(s) is N])
+            return trace
+        return attempt(f, 30)
     if op == 'array_repr':
         import random
         from props.c14 import rand_item, pv
         rng = random.Random(c['seed'])
         def f():
-            a = Array(c['dtype'], [pv(rand_item(rng, c['dtype'])) for _ in range(c['n'])], trailing_bits=Bits(bin=c['trail']) if c['trail'] else None)
+            A, scope = Array, {}
+            if 'sub' in c: A, scope = make_sub(c['sub'])
+            a = A(c['dtype'], [pv(rand_item(rng, c['dtype'])) for _ in range(c['n'])], trailing_bits=Bits(bin=c['trail']) if c['trail'] else None)
             r = repr(a)
-            e = eval(r, {'Array': Array, 'BitArray': BitArray, 'nan': float('nan'), 'inf': float('inf')})
-            return [r, a.equals(e), a.data.bin == e.data.bin]
+            ns = {'Array': Array, 'BitArray': BitArray, 'nan': float('nan'), 'inf': float('inf')}
+            ns.update(scope)
+            e = eval(r, ns)
+            return [r, a.equals(e), a.data.bin == e.data.bin] + ([type(a) is A and isinstance(e, Array)] if 'sub' in c else [])
         return attempt(f)
 
     if op == 'array_repr_raw':
@@ -676,6 +845,30 @@ def oracle(c, obs):
                     msg = judge_printable(c['cls'], e, 0 if c['cls'] in STREAMS else None, rout)
                     if msg: return f"{where}: for the returned {rc} object (reference: {len(e)} bits {e[:40]!r}, .pos gives {rpos}) {msg}"
         return None
+    if op == 'sub':
+        sp = c['sub']
+        who = f"user class {sp['name']}({sp['base']}) defined at '{sp['where']}' level ({sp['body']} body, depth {sp['depth']}, module {sp['modname']!r}), object made by route {c['route']}, forms taken via '{c['via']}'"
+        if obs[0] != 'ok': return f"{who}: defining the class or creating the object raised {obs[1]}"
+        d = c['bits']; pos = c['pos0']; lsb0 = bool(c['lsb0'])
+        stream = sp['base'] in STREAMS
+        for k, (mv, (r, out, seen_pos, rets, is_n)) in enumerate(zip([None] + list(c['moves']), obs[1])):
+            prev, nprev = pos, len(d)
+            exp = None
+            if mv is not None: d, pos, exp = ref_move(d, pos, mv, lsb0)
+            where = f"{who}, {nprev} bits (lsb0={c['lsb0']}) at pos {prev}, " + ('as created' if mv is None else f"move #{k - 1} {mv} ({r}; the moves before it: {c['moves'][max(0, k - 3):k - 1]})")
+            if not is_n: return f"{where}: the object is no longer an instance of its class"
+            if pos == 'open':
+                if not isinstance(seen_pos, int) or not 0 <= seen_pos <= len(d): return f"{where}: the stream reports pos={seen_pos} for {len(d)} bits"
+                pos = seen_pos
+            msg = judge_printable(sp['name'], d, pos, out)
+            if msg: return f"{where}: afterwards {msg}; the (bits, pos) reference has {len(d)} bits, pos={pos}; the class is {out.get('qual')}"
+            if r == 'ok' and exp is not None:
+                if len(rets) != len(exp): return f"{where} returned {len(rets)} bitstring object(s), the reference gives {len(exp)}"
+                for (rc, rout, rpos), e in zip(rets, exp):
+                    # whatever class the returned object has (the user class or a library class): its repr evaluates to an object of THAT class
+                    msg = judge_printable(rc, e, 0 if stream else None, rout)
+                    if msg: return f"{where}: for the returned {rout.get('qual')} object (reference: {len(e)} bits {e[:40]!r}, .pos gives {rpos}) {msg}"
+        return None
     if op == 'pp':
         if obs[0] != 'ok':
             n = len(c['bits'])
@@ -701,7 +894,7 @@ def oracle(c, obs):
         o = obs[1]
         if o.get('skipped'): return None
         if o['cls'] != c['cls'] or not o['same'] or o['pos'][0] != o['pos'][1]:
-            return f"eval(repr(s)) is not s for {c['cls']} created from a file ({c['how']}) after {c['edit']}: {o}"
+            return f"eval(repr(s)) is not s for {c['cls']}{' (user subclass ' + str(c['sub']) + ')' if 'sub' in c else ''} created from a file ({c['how']}) after {c['edit']}: {o}"
         return None
     if op == 'array_repr_raw':
         if obs[0] != 'ok': return f"Array repr {c} raised {obs}"
@@ -713,6 +906,7 @@ def oracle(c, obs):
         return None
     if op == 'array_repr':
         if obs[0] != 'ok': return f"Array repr {c} raised {obs}"
+        if 'sub' in c and not obs[1][3]: return f"repr of an object of the user subclass {c['sub']} of Array does not evaluate to an Array: {obs[1][0][:100]}"
         return None if obs[1][1] and obs[1][2] else f"eval(repr(Array)) differs: {obs[1][0][:100]}"
 
 def nontrivial(c, obs): return len(c.get('bits', '')) % 4 != 0 or ',' in c.get('fmt', '')
